@@ -292,7 +292,7 @@ META = {
         level_note=TB + " The deductive piece is bounded in container size (<= 2 notes before the call), unbounded in pitches.",
         explanation="Deductive: NoteContainer.add_note (Note and bare-name forms), add_notes(container), remove_note (2 forms), the four "
                     "consonance predicates, get_note_names, remove_notes and '-' (a name, a Note, a list of two names), __init__ "
-                    "(own note list), __len__, __getitem__, __eq__. Bounded: bounded/drivers/C12.py.",
+                    "(own note list), __len__, __getitem__, __eq__, from_interval_shorthand (start note object). Bounded: bounded/drivers/C12.py.",
     ),
     "C13": dict(
         claimed=True, level="other",
@@ -332,7 +332,7 @@ META = {
                    "Composition.add_track append exactly the given object to a list of ANY length.",
         level_note=TB,
         explanation="Deductive: Track.add_notes (2 item kinds), add_bar, __len__, Composition.add_track / __len__ / empty / set_title / "
-                    "set_author / reset / __init__ / __getitem__ / __setitem__, Track.__init__ / __getitem__ / __setitem__ / '+', "
+                    "set_author / reset / __init__ / __getitem__ / __setitem__ / '+', Track.__init__ / __getitem__ / __setitem__ / '+' / test_integrity, "
                     "Instrument.note_in_range / can_play_notes / notes_in_range / set_range, Guitar.can_play_notes, "
                     "NoteContainer.__eq__. Bounded: bounded/drivers/C14.py (166k cases quick). Repaired in /repo: "
                     "rest with instrument, Guitar.can_play_notes, Composition.__eq__, container == rest.",
